@@ -62,8 +62,24 @@ ALIGN_SPECS = {
 
 
 def matcher_classes(prog):
+    """every class under Matcher -- except a private intermediate base that a refactoring pulled shared methods up into: a class
+    the reference tree does not have (no function of the frozen inventory lives in it), whose name is private, that has strict
+    subclasses and that no code constructs or passes around.  It is judged through the classes that inherit from it."""
+    cached = getattr(prog, "_matcher_classes", None)
+    if cached is not None:
+        return cached
+    from . import inline
     base = prog.cls(MATCHER_BASE)
-    return prog.subclasses(base)
+    inv = inline.inventory()
+    inst = instantiated_classes(prog)
+    out = []
+    for k in prog.subclasses(base):
+        if inv and k.name.startswith("_") and not k.name.startswith("__") and k.qualname not in inst \
+                and prog.subclasses(k, strict=True) and not any(q.startswith(k.qualname + ".") for q in inv):
+            continue
+        out.append(k)
+    prog._matcher_classes = out
+    return out
 
 
 def spec_for(prog, cls):
